@@ -345,7 +345,8 @@ func getBinValue(getMapType func(*itype) reflect.Type, value func(*frame) reflec
 		return v
 	}
 	if rt := getMapType(val.node.typ); rt != nil {
-		return genInterfaceWrapper(val.node, rt)(f)
+		// Wrap the value held by the interface, not the operand it was converted from.
+		return genInterfaceWrapperValue(val.node, rt, func(*frame) reflect.Value { return val.value })(f)
 	}
 	return v
 }
